@@ -3,7 +3,7 @@
 """
 
 from abc import ABC, abstractmethod
-from numpy import array, atleast_1d, log, exp, pi, sqrt, ndarray, logaddexp
+from numpy import array, atleast_1d, log, exp, pi, sqrt, tanh, ndarray, logaddexp
 
 
 class Likelihood(ABC):
@@ -265,7 +265,8 @@ class LogisticLikelihood(Likelihood):
         self, predictions: ndarray, predictions_jacobian: ndarray
     ) -> ndarray:
         z = (self.y - predictions) * self.inv_scale
-        dL_dF = (2 / (1 + exp(-z)) - 1) * self.inv_scale
+        # (2 / (1 + exp(-z)) - 1 = tanh(z / 2), which does not cancel for |z| << 1)
+        dL_dF = tanh(0.5 * z) * self.inv_scale
         return atleast_1d(dL_dF) @ predictions_jacobian
 
 
